@@ -619,6 +619,8 @@ fn spawn_async_ao_list_in_task'''),
         ('pipe-installed-as-stdin', 'brush-core/src/commands.rs', "    params.set_fd(OpenFiles::STDOUT_FD, writer.into());\n\n    let mut async_reader", "    params.set_fd(OpenFiles::STDIN_FD, writer.into());\n\n    let mut async_reader"),
     ],
     'U10b': [
+        ('backslashes-inserted-front-to-back', 'brush-core/src/regex.rs', "    for pos in insertion_positions.iter().rev() {\n        updated.insert(*pos, '\\\\');", "    for pos in insertion_positions.iter() {\n        updated.insert(*pos, '\\\\');"),
+        ('backslash-inserted-one-byte-late', 'brush-core/src/regex.rs', "        updated.insert(*pos, '\\\\');", "        updated.insert(*pos + 1, '\\\\');"),
         ('escape-flag-set-after-every-backslash', 'brush-core/src/regex.rs', "        in_escape = !in_escape && c == '\\\\';", "        in_escape = c == '\\\\';"),
         ('class-name-check-dropped', 'brush-core/src/regex.rs', "            '[' if !in_escape && in_brackets && !next_is_colon => {", "            '[' if !in_escape && in_brackets => {"),
         ('escaped-close-bracket-closes', 'brush-core/src/regex.rs', "            ']' if !in_escape && in_brackets => {", "            ']' if in_brackets => {"),
